@@ -10,7 +10,7 @@ ASSUMPTIONS = [
 ]
 DTYPES = ['bool', 'int8', 'uint8', 'int16', 'uint16', 'int32', 'uint32', 'int64', 'uint64', 'float16', 'float32', 'float64',
           'bfloat16', 'float8_e4m3fn', 'float8_e5m2', 'int4', 'uint4', 'complex64', 'complex128']
-SHAPES = [[], [0], [0, 3], [1], [2], [3], [5], [2, 2], [2, 3], [3, 1, 2], [2, 1, 2, 2], [7]]
+SHAPES = [[], [0], [0, 3], [1], [2], [3], [5], [2, 2], [2, 3], [3, 1, 2], [2, 1, 2, 2], [7], [11], [3, 4], [13, 1], [1, 1, 1, 1, 1, 1, 1, 1, 1, 1, 1, 2], [25]]
 LAYOUTS = ['C', 'C', 'C', 'F', 'strided', 'neg', 'bcast', 'big']
 KEYS = ['a', 'b', 'c', 'params', 'kernel', 'bias', '0', '1', 'x', 'é', '']
 HEADER = 'From Flaxm Require Import Lib.Harness Model.Flatten Model.Serial.\n'
